@@ -159,7 +159,7 @@ theorem step_frame (ort : Bool) (h h' : Heap Val) (s : Step Val) (hstep : step s
       split at hstep
       · simp only [Option.some.injEq] at hstep; subst hstep
         have := hne dst src rfl
-        simp [List.getElem?_set, Ne.symm this]
+        simp [Ne.symm this]
       · simp at hstep
 
 end Ndx.Heap
